@@ -4,12 +4,12 @@ import shutil, json, os, re, glob, concurrent.futures as cf
 import vf
 
 KINDS = {
-    "C01": {"NoMisroute", "NoReuseWhileOutstanding", "ResponseReaches", "TimeoutHonoured"},
+    "C01": {"NoMisroute", "NoReuseWhileOutstanding", "ResponseReaches", "TimeoutHonoured", "UniqueHold"},
     "C06": {"OutcomeOnce", "OutcomeAllowed", "ReleaseOnce", "ObserverOnce", "NoLeak", "Conservation",
             "CloseReturns", "RequestEnds", "TimeoutHonoured", "ObserverEnds"},
 }
 MON_FIELDS = dict(ev="", seq=0, req=0, stream=0, tok="", echo="", outcome="", avail=0, closed=0, cap=0, what="")
-MON_EVENTS = {"call", "ret", "n_recv", "n_send", "x_release", "obs_finished", "obs_abandoned", "avail", "env_stuck", "env_expect_resp", "r_lookup", "r_discard", "env_early_timeout", "obs_started", "c_begin"}
+MON_EVENTS = {"call", "ret", "n_recv", "n_send", "x_release", "obs_finished", "obs_abandoned", "avail", "env_stuck", "env_expect_resp", "r_lookup", "r_discard", "env_early_timeout", "obs_started", "c_begin", "x_del"}
 
 
 def project_for_monitor(events, conn_id):
@@ -17,7 +17,7 @@ def project_for_monitor(events, conn_id):
     for e in events:
         if e["ev"] not in MON_EVENTS:
             continue
-        if e["ev"] in ("x_release", "r_lookup", "r_discard", "c_begin") and e.get("conn") != conn_id:
+        if e["ev"] in ("x_release", "r_lookup", "r_discard", "c_begin", "x_del") and e.get("conn") != conn_id:
             continue
         r = dict(MON_FIELDS)
         for k in r:
